@@ -19,8 +19,8 @@ import sys
 
 PY = "/venv/bin/python"
 REL = "src/pacti/terms/polyhedra/polyhedra.py"
-TARGETS = ["proofs/TermListGenFacts.vo"]
-GROUPS = ["TermListGenBase", "TermListGenEval", "TermListGenElim", "TermListGenKaykobad", "TermListGenTactic4",
+TARGETS = ["proofs/TermListGenFacts.vo", "proofs/TermListGenContains.vo"]
+GROUPS = ["TermListGenBase", "TermListGenEval", "TermListGenContains", "TermListGenElim", "TermListGenKaykobad", "TermListGenTactic4",
           "TermListGenTactic32", "TermListGenFacts"]
 
 DISPATCH_OLD = '''        for tactic_num in tactics_order:  # noqa WPS327
